@@ -17,6 +17,7 @@ for s in seeds:
     prop = s[:3]
     mp = f'{V}/seeded/{s}/meta.json'
     meta = json.load(open(mp))
+    prop = meta.get('decided_by_property', prop)      # a change asked for one property that breaks the statement of another
     if prop not in claimed:
         print(s, 'property not claimed yet'); continue
     t0 = time.time()
